@@ -25,6 +25,7 @@ func runC17(c *Ctx) {
 	c.NotDec = []string{"the pool invariant after every operation sequence (history-quantified)", "equivalence with a reference model", "eviction fairness"}
 	c.Floors["G"] = 22
 	c.Floors["L2"] = 10
+	c17Round3(c)
 
 	// ---- validateTx -----------------------------------------------------------------------------------
 	if fn := c.Fn("mainchain/tx_pool", "TxPool", "validateTx"); fn != nil {
